@@ -5,6 +5,7 @@ import (
 	"go/ast"
 	"go/constant"
 	"go/token"
+	"go/types"
 	"sort"
 	"strings"
 
@@ -30,6 +31,8 @@ func init() {
 				Old: "\t// 运行时数据仅写入本地缓存\n\tif ttl == 0 {", New: "\t// 运行时数据仅写入本地缓存\n\t_ = h.persistent.Set(key, value)\n\tif ttl == 0 {"},
 			{Name: "incr-on-local-cache", File: "internal/core/storage/hybrid/hybrid_ops.go", Rule: "R-C14-1",
 				Old: "\tcache := h.getCacheForKey(key)\n\n\t// 优先使用该层的原子递增", New: "\tcache := h.cache\n\n\t// 优先使用该层的原子递增"},
+			{Name: "expiry-on-local-cache", File: "internal/core/storage/hybrid/hybrid_ops.go", Rule: "R-C14-1",
+				Old: "\tcache := h.getCacheForKey(key)\n\tvalue, err := cache.Get(key)", New: "\tcache := h.cache\n\tvalue, err := cache.Get(key)"},
 			{Name: "prefix-shadowed", File: "internal/core/storage/hybrid/config.go", Rule: "R-C14-3",
 				Old: "\"tunnox:conn_state:\",            // 连接状态", New: "\"tunnox:persist:conn_state:\",    // 连接状态"},
 			{Name: "list-append-unlocked", File: "internal/core/storage/hybrid/hybrid_ops.go", Rule: "R-C14-4",
@@ -125,9 +128,24 @@ func tierOf(v ssa.Value) string {
 		if h == nil || len(h.Blocks) == 0 || h.Pkg == nil || rel(h.Pkg.Pkg.Path()) != hybPkg {
 			continue
 		}
+		var hstate map[*ssa.BasicBlock]map[string]bool
+		var hlive liveEdges
+		if tierCat != "" && tierConsts != nil {
+			// a helper that chooses the tier from the category: only the returns reachable under the
+			// category being evaluated count
+			hstate, hlive = tierLive(h, tierConsts, map[string]bool{tierCat: true})
+		}
 		for _, ret := range Returns(h) {
+			if hstate != nil && len(hstate[ret.Block()]) == 0 {
+				continue
+			}
 			if idx < len(ret.Results) {
-				roots = append(roots, Origins(RetVal(ret, idx))...)
+				rv := RetVal(ret, idx)
+				if hlive != nil {
+					rv = resolveLive(rv, hlive, 0)
+				}
+				rts := Origins(rv)
+				roots = append(roots, rts...)
 			}
 		}
 	}
@@ -253,6 +271,134 @@ func evalTierOne(p *Prog, f *ssa.Function, consts map[int64]string, fixed map[st
 	if f == nil || len(f.Blocks) == 0 || depth > 3 {
 		return
 	}
+	state, live := tierLive(f, consts, fixed)
+	myCat := ""
+	if len(fixed) == 1 {
+		for c := range fixed {
+			myCat = c
+		}
+	}
+	prevCat := tierCat
+	tierCat, tierConsts = myCat, consts
+	defer func() { tierCat = prevCat }()
+	// collect tier calls in dominance-ish order (block index, then position)
+	for _, b := range f.Blocks {
+		cur := state[b]
+		if len(cur) == 0 {
+			continue
+		}
+		for _, in := range b.Instrs {
+			ci, ok := in.(ssa.CallInstruction)
+			if !ok {
+				continue
+			}
+			c := CalleeOf(ci)
+			isGo := false
+			if _, g := in.(*ssa.Go); g {
+				isGo = true
+			}
+			// helpers of the same type: inline with the current category set
+			if c.Fn != nil && c.Recv == "Storage" && c.Fn.Pkg == f.Pkg && c.Name != "getCategory" && c.Name != "getCacheForKey" &&
+				!strings.HasPrefix(c.Name, "is") {
+				evalTierTable(p, c.Fn, consts, cur, depth+1, async || isGo, out, orderBase)
+				tierCat = myCat
+				continue
+			}
+			if c.Name == "$closure" && c.Fn != nil {
+				evalTierTable(p, c.Fn, consts, cur, depth+1, async || isGo, out, orderBase)
+				tierCat = myCat
+				continue
+			}
+			// a tier passed to a same-package function that operates on its parameter
+			// (`deleteFromTier(h.persistent, key, ...)`): the operations the callee invokes on that
+			// parameter are operations on the tier passed
+			if c.Fn != nil && c.Recv == "" && c.Fn.Pkg == f.Pkg && len(c.Fn.Blocks) > 0 {
+				for ai, a := range ci.Common().Args {
+					if ai >= len(c.Fn.Params) {
+						break
+					}
+					t := tierOf(resolveLive(a, live, 0))
+					if t == "" {
+						continue
+					}
+					if t == "local" || t == "sharedOnly" {
+						for _, ft := range Facts(b) {
+							if x, isnil, ok := ft.FactNil(); ok {
+								if _, fld, _, isF := FieldOf(x); isF && fld == "sharedCache" {
+									if (t == "local" && isnil) || (t == "sharedOnly" && !isnil) {
+										t = "keycache"
+									}
+								}
+							}
+						}
+					}
+					prm := c.Fn.Params[ai]
+					Instrs(c.Fn, func(hin ssa.Instruction) {
+						hc, ok := hin.(ssa.CallInstruction)
+						if !ok || !hc.Common().IsInvoke() || !sameRootParam(hc.Common().Value, prm) {
+							return
+						}
+						*orderBase++
+						for cat := range cur {
+							tc := t
+							if t == "selector" {
+								if cat == "Shared" {
+									tc = "keycache"
+								} else {
+									tc = "local"
+								}
+							}
+							out[cat] = append(out[cat], tierUse{tier: tc, method: hc.Common().Method.Name(), pos: CallPos(ci), async: async || isGo, order: *orderBase})
+						}
+					})
+				}
+				continue
+			}
+			rv := Recv(ci)
+			if rv == nil {
+				continue
+			}
+			t := tierOf(resolveLive(rv, live, 0))
+			if t == "" {
+				continue
+			}
+			// `if h.sharedCache != nil { h.sharedCache.X } else { h.cache.X }` is the key-cache selection written as a branch
+			if t == "local" || t == "sharedOnly" {
+				for _, ft := range Facts(b) {
+					if x, isnil, ok := ft.FactNil(); ok {
+						if _, fld, _, isF := FieldOf(x); isF && fld == "sharedCache" {
+							if (t == "local" && isnil) || (t == "sharedOnly" && !isnil) {
+								t = "keycache"
+							}
+						}
+					}
+				}
+			}
+			*orderBase++
+			for cat := range cur {
+				tc := t
+				if t == "selector" {
+					// getCacheForKey returns the shared cache only when isShared(key) holds (R-C14-1 selector-shape)
+					if cat == "Shared" {
+						tc = "keycache"
+					} else {
+						tc = "local"
+					}
+				}
+				out[cat] = append(out[cat], tierUse{tier: tc, method: c.Name, pos: CallPos(ci), async: async || isGo, order: *orderBase})
+			}
+		}
+	}
+}
+
+// tierCat / tierConsts: the single category the current evaluation runs under (read by tierOf when a
+// tier is handed back by a helper that chooses it from the category).
+var tierCat string
+var tierConsts map[int64]string
+
+// tierLive: which blocks of f are reachable for which categories, deciding every branch on the
+// category value (the result of getCategory, or a parameter of the category type).
+func tierLive(f *ssa.Function, consts map[int64]string, fixed map[string]bool) (map[*ssa.BasicBlock]map[string]bool, liveEdges) {
 	// which SSA values hold the category?
 	catVals := map[ssa.Value]bool{}
 	Instrs(f, func(in ssa.Instruction) {
@@ -260,6 +406,11 @@ func evalTierOne(p *Prog, f *ssa.Function, consts map[int64]string, fixed map[st
 			catVals[c] = true
 		}
 	})
+	for _, prm := range f.Params {
+		if _, n := recvTypeName(prm.Type()); n == "DataCategory" {
+			catVals[prm] = true
+		}
+	}
 	all := map[string]bool{}
 	for _, n := range hybCategories {
 		if fixed == nil || fixed[n] {
@@ -390,112 +541,7 @@ func evalTierOne(p *Prog, f *ssa.Function, consts map[int64]string, fixed map[st
 			}
 		}
 	}
-	// collect tier calls in dominance-ish order (block index, then position)
-	for _, b := range f.Blocks {
-		cur := state[b]
-		if len(cur) == 0 {
-			continue
-		}
-		for _, in := range b.Instrs {
-			ci, ok := in.(ssa.CallInstruction)
-			if !ok {
-				continue
-			}
-			c := CalleeOf(ci)
-			isGo := false
-			if _, g := in.(*ssa.Go); g {
-				isGo = true
-			}
-			// helpers of the same type: inline with the current category set
-			if c.Fn != nil && c.Recv == "Storage" && c.Fn.Pkg == f.Pkg && c.Name != "getCategory" && c.Name != "getCacheForKey" &&
-				!strings.HasPrefix(c.Name, "is") {
-				evalTierTable(p, c.Fn, consts, cur, depth+1, async || isGo, out, orderBase)
-				continue
-			}
-			if c.Name == "$closure" && c.Fn != nil {
-				evalTierTable(p, c.Fn, consts, cur, depth+1, async || isGo, out, orderBase)
-				continue
-			}
-			// a tier passed to a same-package function that operates on its parameter
-			// (`deleteFromTier(h.persistent, key, ...)`): the operations the callee invokes on that
-			// parameter are operations on the tier passed
-			if c.Fn != nil && c.Recv == "" && c.Fn.Pkg == f.Pkg && len(c.Fn.Blocks) > 0 {
-				for ai, a := range ci.Common().Args {
-					if ai >= len(c.Fn.Params) {
-						break
-					}
-					t := tierOf(resolveLive(a, live, 0))
-					if t == "" {
-						continue
-					}
-					if t == "local" || t == "sharedOnly" {
-						for _, ft := range Facts(b) {
-							if x, isnil, ok := ft.FactNil(); ok {
-								if _, fld, _, isF := FieldOf(x); isF && fld == "sharedCache" {
-									if (t == "local" && isnil) || (t == "sharedOnly" && !isnil) {
-										t = "keycache"
-									}
-								}
-							}
-						}
-					}
-					prm := c.Fn.Params[ai]
-					Instrs(c.Fn, func(hin ssa.Instruction) {
-						hc, ok := hin.(ssa.CallInstruction)
-						if !ok || !hc.Common().IsInvoke() || !sameRootParam(hc.Common().Value, prm) {
-							return
-						}
-						*orderBase++
-						for cat := range cur {
-							tc := t
-							if t == "selector" {
-								if cat == "Shared" {
-									tc = "keycache"
-								} else {
-									tc = "local"
-								}
-							}
-							out[cat] = append(out[cat], tierUse{tier: tc, method: hc.Common().Method.Name(), pos: CallPos(ci), async: async || isGo, order: *orderBase})
-						}
-					})
-				}
-				continue
-			}
-			rv := Recv(ci)
-			if rv == nil {
-				continue
-			}
-			t := tierOf(resolveLive(rv, live, 0))
-			if t == "" {
-				continue
-			}
-			// `if h.sharedCache != nil { h.sharedCache.X } else { h.cache.X }` is the key-cache selection written as a branch
-			if t == "local" || t == "sharedOnly" {
-				for _, ft := range Facts(b) {
-					if x, isnil, ok := ft.FactNil(); ok {
-						if _, fld, _, isF := FieldOf(x); isF && fld == "sharedCache" {
-							if (t == "local" && isnil) || (t == "sharedOnly" && !isnil) {
-								t = "keycache"
-							}
-						}
-					}
-				}
-			}
-			*orderBase++
-			for cat := range cur {
-				tc := t
-				if t == "selector" {
-					// getCacheForKey returns the shared cache only when isShared(key) holds (R-C14-1 selector-shape)
-					if cat == "Shared" {
-						tc = "keycache"
-					} else {
-						tc = "local"
-					}
-				}
-				out[cat] = append(out[cat], tierUse{tier: tc, method: c.Name, pos: CallPos(ci), async: async || isGo, order: *orderBase})
-			}
-		}
-	}
+	return state, live
 }
 
 func tierSet(us []tierUse, methods ...string) map[string]bool {
@@ -633,6 +679,88 @@ func runC14(r *Report) {
 			}
 			r.Ob("R-C14-1", pos(op), !stray && len(used) > 0, fmt.Sprintf("category %s: %s operates on %s, Set writes %s (a counter / claim must live where reads and deletes of the key go)", cat, op, setStr(used), setStr(setT)), "Storage."+op, "same-tier-as-set:"+cat)
 		}
+	}
+	// every other key-addressed operation of the facade (expiry, lists, ...; discovered, not listed):
+	// whatever tier it touches for a key of a category is one that Set writes for that category.  Hash
+	// operations address a derived key (key:field) and are documented as cache-only; they are noted.
+	if st := r.P.Fn(hybPkg, "Storage.Set"); st != nil {
+		// the generic key-value contract (the Storage and ListStore interfaces): a caller of these cannot
+		// name a tier, so the facade must pick it from the key.  Methods outside the contract that name
+		// their tier (SetRuntime, SetPersistent, ...) are the facade's explicit-tier API and are not held to it.
+		contract := map[string]bool{}
+		if tp := r.P.ByPath[Module+"/internal/core/storage/types"]; tp != nil {
+			for _, in := range []string{"Storage", "ListStore"} {
+				if o := tp.Types.Scope().Lookup(in); o != nil {
+					if it, ok := o.Type().Underlying().(*types.Interface); ok {
+						for i := 0; i < it.NumMethods(); i++ {
+							contract[it.Method(i).Name()] = true
+						}
+					}
+				}
+			}
+		}
+		if len(contract) < 6 {
+			r.Fail("R-C14-1", st.Pos(), "the Storage / ListStore interfaces of internal/core/storage/types were not found", "Storage", "op-within-set:anchor")
+		}
+		var others []*ssa.Function
+		for _, g := range r.P.Funcs {
+			if !contract[g.Name()] {
+				continue
+			}
+			if g.Pkg != st.Pkg || g.Signature.Recv() == nil || len(g.Blocks) == 0 || g.Object() == nil || !g.Object().Exported() {
+				continue
+			}
+			if _, n := recvTypeName(g.Signature.Recv().Type()); n != "Storage" {
+				continue
+			}
+			switch g.Name() {
+			case "Set", "Get", "Delete", "Exists", "SetNX", "IncrBy":
+				continue
+			}
+			if len(g.Params) < 2 {
+				continue
+			}
+			if b, ok := g.Params[1].Type().Underlying().(*types.Basic); !ok || b.Kind() != types.String {
+				continue
+			}
+			others = append(others, g)
+		}
+		sort.Slice(others, func(i, j int) bool { return others[i].Name() < others[j].Name() })
+		nOther := 0
+		for _, g := range others {
+			if strings.Contains(g.Name(), "Hash") {
+				continue
+			}
+			tbl := map[string][]tierUse{}
+			n := 0
+			evalTierTable(r.P, g, consts, nil, 0, false, tbl, &n)
+			for _, cat := range hybCategories {
+				if len(tbl[cat]) == 0 {
+					continue
+				}
+				setT := tierSet(ops["Set"][cat], "Set")
+				used := map[string]bool{}
+				for _, u := range tbl[cat] {
+					used[u.tier] = true
+				}
+				var stray []string
+				for t := range used {
+					if !setT[t] {
+						stray = append(stray, t)
+					}
+				}
+				sort.Strings(stray)
+				if cat == "SharedPersistent" && len(stray) > 0 && len(used) == 1 && used["local"] {
+					// same carve-out as SetNX / IncrBy: the source of truth of this category is the persistent
+					// tier (no expiry) and the local tier never holds such a key, so the call finds nothing
+					r.Note("R-C14-1: %s on a shared+persistent key addresses %s while Set writes %s (the local tier never holds such a key; no caller uses it on that category today)", g.Name(), setStr(used), setStr(setT))
+					continue
+				}
+				nOther++
+				r.Ob("R-C14-1", g.Pos(), len(stray) == 0, fmt.Sprintf("category %s: %s touches %s, Set writes %s (an operation on a key goes to the tier class the key was written to)", cat, g.Name(), setStr(used), setStr(setT)), "Storage."+g.Name(), "op-within-set:"+cat)
+			}
+		}
+		r.Note("R-C14-1: %d other key-addressed facade operations evaluated (%d operation x category obligations)", len(others), nOther)
 	}
 	// the selector itself: shared cache only under isShared(key) && sharedCache != nil, else the local cache
 	if gk := r.need("R-C14-1", hybPkg, "Storage.getCacheForKey"); gk != nil {
